@@ -65,3 +65,18 @@ if name=='p7':   # approvals computed with lists
 if name=='p8':   # greeting sent after the comments were handled? no: keep; instead: successful merge message reworded
     sub('bert_e/templates/successful_merge.md',"I have successfully merged","I have now merged")
 print(wt)
+import sys, subprocess, os
+name=sys.argv[1]
+wt='/tmp/wt-'+name
+subprocess.run(['git','-C','/repo','worktree','add','-q',wt,'HEAD'],check=True)
+def sub(path, old, new):
+    p=os.path.join(wt,path); s=open(p).read(); assert old in s, (name, path); open(p,'w').write(s.replace(old,new,1))
+if name=='q1':   # branch_factory: try development before stabilization (disjoint patterns)
+    sub('bert_e/workflow/gitwaterflow/branches.py',"    for cls in [StabilizationBranch, DevelopmentBranch, ReleaseBranch,","    for cls in [DevelopmentBranch, StabilizationBranch, ReleaseBranch,")
+if name=='q2':   # ignored branches no longer sorted
+    sub('bert_e/workflow/gitwaterflow/branches.py',"        self._set_target_versions(dst_branch)\n        self.ignored_branches.sort()","        self._set_target_versions(dst_branch)\n        self.ignored_branches.sort(reverse=True)")
+if name=='q3':   # early_checks: NothingToDo instead of NotMyJob (both silent)
+    sub('bert_e/workflow/gitwaterflow/__init__.py',"        raise messages.NotMyJob(src, dst)","        raise messages.NothingToDo('%s -> %s is not handled' % (src, dst))")
+if name=='q4':   # delete_branch / create_branch: other refusal texts
+    sub('bert_e/jobs/create_branch.py',"'Requested new branch %r cannot be '\n                                        'created now due to queued data.'","'Refused: %r would sit below queued '\n                                        'pull requests.'")
+print(wt)
